@@ -51,6 +51,9 @@ static int unique = 0;
 static int in_sweep = 0;
 #define SWEPT_TIME	(call_out_time + in_sweep)
 
+/* the object a call out belongs to: its target, or the owner of its function pointer */
+#define CALL_OUT_OWNER(cop)	((cop)->ob ? (cop)->ob : (cop)->function.f->hdr.owner)
+
 static void free_call (pending_call_t *);
 static void free_called_call (pending_call_t *);
 void remove_all_call_out (object_t *);
@@ -215,9 +218,9 @@ call_out ()
             /* Move the first call_out out of the chain. */
             cop = call_list[tm];
             call_list[tm] = call_list[tm]->next;
-            if (cop->ob && (cop->ob->flags & O_DESTRUCTED))
+            if (CALL_OUT_OWNER (cop)->flags & O_DESTRUCTED)
               {
-                opt_trace (TT_BACKEND|2, "removing call_out to destructed object %s", cop->ob->name);
+                opt_trace (TT_BACKEND|2, "removing call_out to destructed object %s", CALL_OUT_OWNER (cop)->name);
                 free_call (cop);
                 cop = 0;
               }
@@ -444,7 +447,7 @@ array_t* get_all_call_outs () {
 
   for (i = 0, j = 0; j < CALLOUT_CYCLE_SIZE; j++)
     for (cop = call_list[j]; cop; cop = cop->next)
-      if (!cop->ob || !(cop->ob->flags & O_DESTRUCTED))
+      if (!(CALL_OUT_OWNER (cop)->flags & O_DESTRUCTED))
         i++;
 
   v = allocate_empty_array (i);
@@ -457,7 +460,7 @@ array_t* get_all_call_outs () {
           array_t *vv;
 
           delay += cop->delta;
-          if (cop->ob && (cop->ob->flags & O_DESTRUCTED))
+          if (CALL_OUT_OWNER (cop)->flags & O_DESTRUCTED)
             continue;
           vv = allocate_empty_array (3);
           if (cop->ob)
